@@ -116,7 +116,12 @@ def run_case(case, rng):
 
     # ---- marginalize ----------------------------------------------------------------------------
     buckets = rng.randint(1, 3)
-    proj_map = {e: ("bucket", rng.randrange(buckets)) for e in r1}
+    if rng.random() < 0.5:
+        proj_map = {e: ("bucket", rng.randrange(buckets)) for e in r1}
+    else:
+        # images whose hashes collide in CPython (hash(-1) == hash(-2)) and that several events share
+        imgs = rng.sample([-1, -2, (-1,), (-2,), (-1, -2), (-2, -1), 0, "x"], rng.randint(2, 4))
+        proj_map = {e: rng.choice(imgs) for e in r1}
     m = case.call("marginalize", d1.marginalize, lambda e: proj_map[e], facts=facts)
     case.count("op:marginalize")
     if m is not case.FAIL:
@@ -240,6 +245,19 @@ def run_case(case, rng):
             # every positive event with p >= 0.1 shows up in 250+ draws (miss probability < 4e-12)
             missing = [e for e in pos if r[e] / math.fsum(r.values()) >= 0.1 and e not in set(seq_a)]
             case.check(not missing, "sample:likely-event-never-sampled", lambda: f"{missing!r} from {r!r}", kind=k)
+        if k == "dict" and len(r) >= 2 and len(pos) >= 1:
+            # a dict distribution updated IN PLACE (same keys) and sampled again: never an event that now has probability 0
+            keep = rng.choice(pos)
+            newr = {e: (1.0 if e == keep else 0.0) for e in r}
+            for e, p_ in newr.items():
+                d[e] = p_
+            again = case.call("sample(after in-place update)", lambda: [d.sample(rng=ra) for _ in range(60)], facts=dict(kind=k))
+            case.count("samples_after_inplace_update", 60)
+            if again is not case.FAIL:
+                case.check(set(again) == {keep}, "sample:stale-weights-after-in-place-update",
+                           lambda: f"after setting all mass on {keep!r}: drew {set(again)!r}", kind=k)
+            for e, p_ in r.items():
+                d[e] = p_
         if k in ("dict", "softmax", "table") and len(r) >= 2:
             multi = case.call("sample(k)", lambda: d.sample(rng=_random.Random(seed), k=5), facts=dict(kind=k))
             if multi is not case.FAIL:
